@@ -265,6 +265,14 @@ pub fn run(opts: &Opts, pi: &PropInfo) -> i32 {
         meta.push(("c17_bad_replay".into(), false, "replayed definition".into()));
     }
     if replay_src.is_none() {
+        // the same holder with a byte-sized alignment unit (a packed pointer holder): paths that treat "unit 1" as
+        // "plain bytes" must still refuse it
+        let handle1 = HANDLE.replace("pub struct Handle(", "#[repr(packed)]\npub struct Handle(").replace("fn max_size_of() -> usize { core::mem::size_of::<usize>() }", "fn max_size_of() -> usize { 1 }");
+        for (k, (defs, ty, val, what)) in HANDLE_USES.iter().enumerate().filter(|(_, u)| !u.1.contains("SerIter") && u.0.is_empty() || u.1.starts_with('&')) {
+            let d = Def { source: format!("{}{}", handle1, defs), value: val.to_string(), ty: ty.to_string() };
+            probes.push(Probe { name: format!("c17_bad_handle1_{}", k), source: probe_source(&d, false) });
+            meta.push((format!("c17_bad_handle1_{}", k), false, format!("{} (packed, alignment unit 1)", what)));
+        }
         for (k, (defs, ty, val, what)) in HANDLE_USES.iter().enumerate() {
             let d = Def { source: format!("{}{}", HANDLE, defs), value: val.to_string(), ty: ty.to_string() };
             probes.push(Probe { name: format!("c17_bad_handle_{}", k), source: probe_source(&d, false) });
